@@ -74,6 +74,15 @@ PROPS = {
                         "malformed request bodies (body-reader parse errors) are outside the model"],
         "trusted_base": MACH_TB,
     },
+    "C03": {
+        "ties": MACH_TIES,
+        "streams": {"quick": [MACH_QUICK], "thorough": [MACH_THOROUGH]},
+        "level": "proof",
+        "assumptions": [SYMBOLIC,
+                        "the handler-level link (no session write when the named account is locked/unconfirmed) is proven for the password login; for the other flows the same veto theorems apply to the Before(EventAuth)/Before(EventOAuth2) call that their route theorems (C01) show on the path, and the behaviour is checked by the differential stream and the trace monitor",
+                        "OAuth2 accounts are created confirmed by the application's storer (confirm registers no Before(EventOAuth2) handler; DESIGN 6-F12)"],
+        "trusted_base": MACH_TB,
+    },
     "C04": {
         "ties": ["Lock", "Events"],
         "streams": {
